@@ -6,7 +6,7 @@ from typing import Dict, List, Optional
 
 from .. import sym
 from ..sym import Rat, C
-from ..values import Num, Const, Tup, Term, Obj, P, Val, Gam, veq, walk_vals, arr_param, contradicts, p_not
+from ..values import Num, Const, Tup, Term, Obj, P, Val, Gam, Ref, veq, walk_vals, arr_param, contradicts, p_not
 from ..model import AnalysisError, FuncInfo
 from ..symeval import Evaluator
 from ..weaver_model import WeaverModel, WEAVER, SERIES_FIELDS
@@ -226,13 +226,18 @@ def check_guards(ctx, wm: WeaverModel):
     rs = [e for e in mf_grid.raises if e.data.get('exc') == 'ValueError']
     nx = mf_grid.params['new_x']
     x = wm.fields['x']
-    first = P('==', *(sorted([nx.at(C(0)), x.at(C(0))], key=lambda n: sym.show(n.r))))
+    from ..truth import equivalent
+    Ln = nx.length
+    want = P('not', P('and', P('==', nx.at(C(0)), x.at(C(0))), P('==', nx.at(Ln - C(1)), x.at(wm.Lw - C(1)))))
     ok = False
     for e in rs:
-        txt = ' '.join(str(g) for g in e.guard)
-        has_first = 'arg:new_x[0]' in txt and 'self.x[0]' in txt
-        has_last = 'arg:new_x[-1 + L:new_x]' in txt and 'self.x[-1 + Lw]' in txt
-        if has_first and has_last and any(isinstance(g, P) and g.op == 'or' for g in e.guard):
+        rel = [g for g in e.guard if any(isinstance(t, Num) and t.length is None and any(sym.ATOMS.head(a_) == 'el' and isinstance(sym.ATOMS.args(a_)[0], Ref)
+                                                                                      and sym.ATOMS.args(a_)[0].label == 'arg:new_x' for a_ in sym.all_atoms(t.r))
+                                         for t in walk_vals(g))]
+        if not rel:
+            continue
+        verdict, _ = equivalent(rel[0] if len(rel) == 1 else P('and', *rel), want)
+        if verdict:
             ok = True
     ctx.check(ok, 'C20.1', 'interpolation grid with different end points: ValueError unless the first AND the last element equal those of x',
               f"{[[str(g)[:160] for g in e.guard] for e in rs]}", mf_grid.fi.loc(), mf_grid.fi.qualname, 'grid-ends')
